@@ -15,8 +15,8 @@ Tie of coq/model/Chan.v + Spawn.v to /repo (every run):
      site) against the extracted `predict`;
   E  2..4 goroutines ranging over one channel, 20000 messages (the class repaired by 0f2710a: regression stage);
   F  a sample of B, D and E in a -race build;
-  G  the Next/Entry protocol that keys(ch) / map(ch) still use: one consumer next to receive() users (guarded theorem),
-     and several consumers at once (C10_iterator_protocol_refuted on the real code; must satisfy `weak_accept`).
+  G  keys(ch) / map(ch) consumers (object.IterNextEntry): one next to receive() users, and several at once on one channel
+     (the class repaired by ce76520: regression stage).
 """
 import json
 import os
@@ -30,8 +30,8 @@ from lib import common as C
 PROP = "C10"
 LEVEL = "proof"
 M = 1000000          # value = sender * M + sequence number
-KNOWN_CLASS = "iterator-protocol-multi-consumer"
-KNOWN_ID = "iterator-protocol-multi-consumer"
+KNOWN_CLASS = None      # no open finding (range-multi-receiver: 0f2710a, iterator-protocol-multi-consumer: ce76520)
+KNOWN_ID = None
 
 
 # ------------------------------------------------------------------ known findings (own file first)
@@ -150,6 +150,20 @@ def foriter_variant():
     if re.search(r"_,\s*ok\s*:?=\s*iter\.Next\(ctx\)", blk) and "iter.Entry()" in blk and "c.lastReceived = value" in ch:
         return 0, "ForIter drops the value of iter.Next and calls iter.Entry; Chan.Next stores lastReceived"
     return None, "ForIter / Chan.Next have a shape the model does not know"
+
+
+def builtins_variant():
+    """keys() / map() must take each value of an iterator through object.IterNextEntry (one call for a channel)."""
+    try:
+        src = open(os.path.join(C.REPO, "builtins", "builtins.go")).read()
+        ch = open(os.path.join(C.REPO, "object", "chan.go")).read()
+    except OSError:
+        return False, "builtins/builtins.go or object/chan.go not readable"
+    if "iter.Entry()" in src:
+        return False, "builtins/builtins.go calls iter.Entry() again (Next then Entry on a channel shares Chan.lastReceived)"
+    if src.count("object.IterNextEntry(ctx, iter)") < 2 or "func IterNextEntry(" not in ch or "return ch.NextEntry(ctx)" not in ch:
+        return False, "builtins.Map / iterKeys do not go through object.IterNextEntry -> Chan.NextEntry"
+    return True, "builtins.Map and iterKeys use object.IterNextEntry"
 
 
 def seq_expected(model_out, ops):
@@ -604,10 +618,15 @@ def _body(res, tier, obs, model, proved):
     if not fused:
         # the model describes ForIter taking value and entry from the channel in one call (Chan.NextEntry)
         corr.append({"stage": "source anchor of ForIter", "impl": vwhy,
-                     "model": "model/Chan.v: a range step is Take; Fin (Chan.NextEntry); the Next/Entry protocol is reached only by keys()/map()"})
+                     "model": "model/Chan.v: a range step is Take; Fin (Chan.NextEntry)"})
+    bok, bwhy = builtins_variant()
+    res.coverage["builtins_variant"] = {"one_step": bok, "why": bwhy}
+    if not bok:
+        corr.append({"stage": "source anchor of keys()/map()", "impl": bwhy,
+                     "model": "model/Chan.v: keys(ch) / map(ch) take each value with Take; Fin (object.IterNextEntry)"})
 
     def fresh_violation():
-        return any(not (v.get("klass") == KNOWN_CLASS and KNOWN_ID in known_ids) for v in oracle_viol)
+        return any(not (KNOWN_ID is not None and v.get("klass") == KNOWN_CLASS and KNOWN_ID in known_ids) for v in oracle_viol)
 
     def finish():
         _finish(res, st["evals"], nontrivial, samples, stats, corr, oracle_viol, known, known_ids, proved)
@@ -875,18 +894,18 @@ def _body(res, tier, obs, model, proved):
 
     if fresh_violation():
         return finish()
-    C.log("C10/G: the Next/Entry protocol (keys / map builtins)")
-    # ---------------- G: keys(ch) / map(ch) consume a channel through Chan.Next + Chan.Entry
+    C.log("C10/G: keys(ch) / map(ch) consumers")
+    # ---------------- G: keys(ch) / map(ch) consume a channel through object.IterNextEntry (regression stage for ce76520)
     ng = 3 if quick else 16
     g_cfgs = []
     for _ in range(ng):
-        # one protocol consumer next to receive() users: C10_iterator_protocol_guarded applies
+        # one map(ch) consumer next to receive() users
         g_cfgs.append({"cap": rng.below(9), "counts": [rng.choice([200, 2000]) for _ in range(1 + rng.below(3))],
                        "rkinds": ["map"] + [rng.choice(["op", "method"]) for _ in range(rng.below(3))],
                        "sform": ["go"] * 3, "send_form": ["op", "method", "op"], "yields": False, "procs": rng.choice([2, 16]),
                        "yield_seed": 0})
     for _ in range(ng):
-        # several protocol consumers: C10_iterator_protocol_refuted
+        # several map(ch) consumers on one channel
         g_cfgs.append({"cap": rng.below(9), "counts": [20000], "rkinds": ["map"] * (2 + rng.below(3)), "sform": ["go"],
                        "send_form": ["op"], "yields": False, "procs": 16, "yield_seed": 0})
     for c in g_cfgs:
@@ -907,7 +926,7 @@ def _body(res, tier, obs, model, proved):
         multi = n_proto(c) > 1
         if why:
             oracle_viol.append({"stage": "G-protocol", "config": c, "why": why, "facts": facts, "src": topo_script(c),
-                                "klass": KNOWN_CLASS if multi and not why.startswith(("values never sent", "evaluation failed", "runaway", "unexpected")) else None})
+                                "klass": None})
             if multi:
                 g_multi_bad += 1
                 nontrivial.add(("G", k, facts.get("dups"), facts.get("lost")))
@@ -921,10 +940,7 @@ def _body(res, tier, obs, model, proved):
     for k, o in zip(gidx, gouts):
         if o is not None and o.endswith("weak=1"):
             g_weak += 1
-        elif n_proto(g_cfgs[k]) > 1:
-            pass    # map() collapses entries whose (racy) keys coincide: the count is not comparable in this class
         else:
-            # the model allows duplicates/losses for overlapping protocol runs, never invented values or a changed count
             oracle_viol.append({"stage": "G-protocol", "config": g_cfgs[k], "why": "the count of delivered values differs from the "
                                 "count sent, or a value never sent was delivered (model: %s)" % o,
                                 "src": topo_script(g_cfgs[k]), "klass": None})
@@ -1002,10 +1018,10 @@ def _finish(res, evals, nontrivial, samples, stats, corr, oracle_viol, known, kn
                    "scenarios (5 spawn forms, return / raised error / Go panic, 1..3 waiters, reassignments and slice overwrites "
                    "after the spawn site). E: 2..4 goroutines ranging over one channel, 20000 messages. "
                    "F: a sample of B and D and one E topology in a -race build, one process per case. G: one or several goroutines "
-                   "consuming the channel with map(ch) (Next/Entry protocol). "
+                   "consuming the channel with map(ch). "
                    "Non-trivial = distinct A histories containing nil / end / error / blocking / range events, B topologies with "
                    "more than one message and more than one party, distinct observed C outcomes, D scenarios with a "
-                   "reassignment, overwrite, error or panic, G runs that show duplicates/losses.")
+                   "reassignment, overwrite, error or panic.")
     cov["samples"] = samples
     cov["correspondence"] = dict(stats, differences=len(corr))
     cov["traces_validated_against_impl"] = stats.get("A_sequential", {}).get("agree", 0) + \
@@ -1025,15 +1041,12 @@ def _finish(res, evals, nontrivial, samples, stats, corr, oracle_viol, known, kn
     # ---------------- decide
     fresh, in_class = [], []
     for v in oracle_viol:
-        if v.get("klass") == KNOWN_CLASS and KNOWN_ID in known_ids:
+        if KNOWN_ID is not None and v.get("klass") == KNOWN_CLASS and KNOWN_ID in known_ids:
             in_class.append(v)
         else:
             fresh.append(v)
-    if in_class:
-        v = in_class[0]
-        res.known_finding("several goroutines consuming one channel with keys(ch) / map(ch) lose and duplicate values "
-                          "(%d runs in this class showed it; e.g. %d goroutines in map(ch), %d messages: %s)" % (
-                              len(in_class), n_proto(v["config"]), sum(v["config"]["counts"]), v["why"][:150]))
+    if in_class:        # unreachable while KNOWN_ID is None; kept for a future open class
+        res.known_finding("%d runs in the open class %s, e.g. %s" % (len(in_class), KNOWN_ID, in_class[0]["why"][:150]))
     for v in fresh[:10]:
         v.update({"property": PROP, "kind": "oracle-violation"})
         res.violation(v)
@@ -1041,13 +1054,13 @@ def _finish(res, evals, nontrivial, samples, stats, corr, oracle_viol, known, kn
         return
     if not proved:
         res.violation({"property": PROP, "kind": "proof-obligation-broken", "theorem_file": "coq/props/C10.v",
-                       "broken": res.broken, "search": "%d evaluations: no failing input outside the known class" % evals},
+                       "broken": res.broken, "search": "%d evaluations: no failing input" % evals},
                       nofail=True, tag="proof")
         return
     if corr:
         res.violation({"property": PROP, "kind": "correspondence-broken", "stage": corr[0].get("stage"),
                        "first_difference": corr[0], "differences": corr[:20],
-                       "search": "oracle evaluated on all %d implementation runs: no failing input outside the known class" % evals},
+                       "search": "oracle evaluated on all %d implementation runs: no failing input" % evals},
                       nofail=True, tag="corr")
 
 
